@@ -1222,6 +1222,18 @@ class PathCtx:
                 rec[1] += 1
                 return True
             m = self._ensure_model()
+            if self.norm_hints or self.ex.robust:
+                # a replayable model of this path: normalised / with margins where possible
+                extra = list(self.norm_hints)
+                if self.ex.robust:
+                    extra += [strengthen(f) for f in self.decided]
+                r2, m2 = self._solve(extra) if extra else (z3.unknown, None)
+                if r2 == z3.sat:
+                    m = m2
+                elif self.ex.robust and self.norm_hints:
+                    r2, m2 = self._solve(list(self.norm_hints))
+                    if r2 == z3.sat:
+                        m = m2
             self._record_cex(name, m, detail, parts, concrete=True)
             st.violated += 1
             rec[2] += 1
